@@ -999,5 +999,9 @@ pub fn generate(prop: &str, seed: u64, idx: u64, tier: Tier) -> Plan {
         }
         p.heal_at_ms = t + 50;
     }
+    if racing && r.chance(40) {
+        // sends of racing tasks can only overlap inside the transport if a socket send can be suspended
+        p.knobs.insert("io_yield_pct".into(), *r.pick(&[10i64, 30, 60]));
+    }
     p
 }
